@@ -663,7 +663,9 @@ func createConnHandler(
 				return err
 			}
 			if inErr == nil {
-				if err := clientStream.SendMsg(args); err != nil {
+				// io.EOF means the backend already ended the call: its status
+				// is delivered by RecvMsg below.
+				if err := clientStream.SendMsg(args); err != nil && err != io.EOF {
 					return err
 				}
 			}
